@@ -1,7 +1,7 @@
 """C09 - typed request-header accessors agree with the RFC reading or answer 400."""
 PROP = 'C09'
-LEAN_MODULES = ['FalconModel.HeaderParsersProofs', 'FalconModel.ForwardedProofs', 'FalconModel.CookiesProofs']
-DRIVERS = ['hpdriver', 'fwdriver']
+LEAN_MODULES = ['FalconModel.HeaderParsersProofs', 'FalconModel.ForwardedProofs', 'FalconModel.CookiesProofs', 'FalconModel.ReqDatesProofs', 'FalconModel.ReqUrlProofs']
+DRIVERS = ['hpdriver', 'fwdriver', 'rudriver']
 THEOREMS = [
     'Hp.pyInt_toDigits', 'Hp.pyInt_nonneg_of_no_minus',
     'Hp.contentLength_digits', 'Hp.contentLength_ok_nonneg', 'Hp.contentLengthB_digits', 'Hp.contentLengthB_ok_nonneg',
@@ -17,6 +17,18 @@ THEOREMS = [
     # Cookie (Cookies.lean, CookiesProofs.lean)
     'Ck.stepToken_render', 'Ck.parseCookieHeader_render', 'Ck.lookup_insertVal', 'Ck.cookie_valid_eq_rfc', 'Ck.cookies_first_value', 'Ck.cookies_has_name',
     'Ck.cUnquote_plain', 'Ck.unq_oct', 'Ck.unquote_quote', 'Ck.cUnquote_quote',
+    # HTTP-dates (ReqDates.lean, ReqDatesProofs.lean; calendar and rendering reused from Cw)
+    'Dt.date_format_parse', 'Dt.date_below_1000_not_read_back', 'Dt.date_weekday_not_checked', 'Dt.date_weekday_not_checked_imf', 'Dt.date_any_weekday',
+    'Dt.httpDateToDt_valid', 'Dt.rfc850_parse', 'Dt.asctime_parse', 'Dt.rfc850_rejected_without_obs', 'Dt.asctime_rejected_without_obs',
+    'Dt.req_date_accessors', 'Dt.getHeaderAsDatetime_required', 'Dt.req_date_reads_response_date', 'Dt.reqDate_ok_valid', 'Dt.obs_forms_rejected_by_properties',
+    'Cw.ord2ymd_spec', 'Cw.parseDate_imfDate', 'Cw.weekdayOfOrd_succ', 'Cw.weekday_epoch',
+    # URL composition (ReqUrl.lean, ReqUrlProofs.lean)
+    'Ru.uri_eq_prefix_path_query', 'Ru.uri_eq_prefix_relative', 'Ru.prefix_relative_eq', 'Ru.uri_eq', 'Ru.forwarded_uri_eq', 'Ru.forwarded_eq_plain',
+    'Ru.forwarded_scheme_precedence', 'Ru.forwarded_host_precedence', 'Ru.xforwarded_ignored_with_forwarded', 'Ru.forwarded_valid_eq_rfc',
+    'Ru.subdomain_spec', 'Ru.netloc_omits_default_port_only_without_host_header', 'Ru.asgi_netloc_omits_default_port_only_without_host_header',
+    'Ru.initPath_ne_nil', 'Ru.initPath_strip', 'Ru.initPath_keep', 'Ru.initPath_root',
+    'Ru.access_fresh', 'Ru.run_fresh', 'Ru.run_new', 'Ru.memo_idempotent',
+    'Ru.wsgi_forwarded_core', 'Ru.asgi_forwarded_core', 'Ru.intDec_443', 'Ru.intDec_80', 'Ru.agree_netloc', 'Ru.wsgi_asgi_core', 'Ru.wsgi_asgi_agree',
 ]
 STATEMENTS = {
     'Hp.pyInt_toDigits': "Python int() of the decimal representation of n is n",
@@ -43,28 +55,66 @@ STATEMENTS = {
     'Ck.cookies_first_value': "req.cookies[name] is the first value given for the name",
     'Ck.cookies_has_name': "the keys of req.cookies are exactly the names occurring in the header",
     'Ck.unquote_quote': "for every Latin-1 string and every set of legal characters, http.cookies._unquote's scanner inverts _quote-style escaping (backslash before '\"' and '\\', three-digit octal escapes for the rest)",
+    'Dt.date_format_parse': "for every date-time a datetime object can hold from the year 1000 on (1 <= month <= 12, 1 <= day <= days in that month, hour <= 23, minute, second <= 59), http_date_to_dt(dt_to_http(d)) = d, with obs_date=False and True",
+    'Dt.date_below_1000_not_read_back': "for every valid date-time before the year 1000, http_date_to_dt(dt_to_http(d)) is a ValueError: glibc's %Y writes the year without zero padding and strptime's %Y demands exactly four digits",
+    'Dt.date_weekday_not_checked': "for any two of the seven day names and any continuation that does not start with a letter or digit, http_date_to_dt gives the same result (obs_date or not): the day name is parsed but never compared with the date",
+    'Dt.date_weekday_not_checked_imf': "without obs_date the result is independent of the day name for every continuation whatsoever",
+    'Dt.date_any_weekday': "a rendered IMF-fixdate with its day name replaced by any of the seven reads as the same date-time",
+    'Dt.httpDateToDt_valid': "whatever http_date_to_dt returns (any input string, any of the five formats) is a real calendar date and time of day with 1 <= year <= 9999",
+    'Dt.rfc850_parse': "with obs_date=True the RFC 850 rendering (full day name, two-digit year) of every valid date-time in 1969..2068 reads back as that date-time (POSIX pivot: 00-68 -> 20xx, 69-99 -> 19xx)",
+    'Dt.asctime_parse': "with obs_date=True the asctime rendering (day padded with a space) of every valid date-time from the year 1000 on reads back as that date-time",
+    'Dt.req_date_accessors': "req.date / if_modified_since / if_unmodified_since are get_header_as_datetime(header): None if absent, the date-time if http_date_to_dt (IMF-fixdate format only) accepts the value, otherwise HTTPInvalidHeader (400)",
+    'Dt.req_date_reads_response_date': "a date header written with dt_to_http (what resp.last_modified / expires do) is read by the three properties as the same date-time (years >= 1000)",
+    'Dt.obs_forms_rejected_by_properties': "known finding F30 as a theorem: for every valid date-time the RFC 850 and asctime renderings are answered with 400 by the three properties, while get_header_as_datetime(..., obs_date=True) returns the date-time",
+    'Cw.ord2ymd_spec': "_ord2ymd inverts _ymd2ord on every day number >= 1 and returns a real month and day (the proleptic Gregorian calendar used for the day name)",
+    'Ru.uri_eq_prefix_path_query': "req.uri = req.prefix + req.path [+ '?' + req.query_string when it is not empty]",
+    'Ru.uri_eq_prefix_relative': "req.uri = req.prefix + req.relative_uri holds if and only if root_path is empty (both prefix and relative_uri contain root_path)",
+    'Ru.forwarded_uri_eq': "forwarded_uri = forwarded_scheme + '://' + forwarded_host + relative_uri = forwarded_prefix + path [+ '?' + query]",
+    'Ru.forwarded_eq_plain': "without Forwarded, X-Forwarded-Proto and X-Forwarded-Host the forwarded_* properties equal scheme, netloc, prefix and uri",
+    'Ru.forwarded_scheme_precedence': "forwarded_scheme is: the first Forwarded element's proto (or the own scheme if it has none / is empty / there is no element) when a Forwarded header is present; else X-Forwarded-Proto lower-cased; else the own scheme",
+    'Ru.forwarded_host_precedence': "forwarded_host is: the first Forwarded element's host (or netloc if none / empty / no element) when a Forwarded header is present; else X-Forwarded-Host verbatim; else netloc",
+    'Ru.xforwarded_ignored_with_forwarded': "whenever a Forwarded header is present, forwarded_scheme and forwarded_host do not depend on X-Forwarded-Proto / X-Forwarded-Host at all",
+    'Ru.forwarded_valid_eq_rfc': "for every Forwarded header built from the RFC 7239 grammar with distinct parameter names per element, forwarded_scheme is the first element's proto value in lower case and forwarded_host its host value (own scheme / netloc when absent or empty)",
+    'Ru.subdomain_spec': "subdomain is the text of host before its first '.', None if host has no '.', and a 400 exactly when host is one",
+    'Ru.netloc_omits_default_port_only_without_host_header': "WSGI: with a Host header netloc is that header verbatim (an explicit :80 / :443 stays); without one it is SERVER_NAME followed by ':' + SERVER_PORT unless the port text is '443' under https resp. '80' under any other scheme",
+    'Ru.asgi_netloc_omits_default_port_only_without_host_header': "ASGI: the same with the server's integer port, wss counting as secure; no server entry in the scope gives 'localhost' without port",
+    'Ru.access_fresh': "on a request object whose memo cells are consistent (each unset or holding the fresh value) every one of the thirteen properties returns what a fresh computation gives and leaves the cells consistent",
+    'Ru.run_new': "any sequence of property reads on a new request object, in any order and with any repetitions, returns the fresh value at every read",
+    'Ru.memo_idempotent': "for each property and every state of the six memo cells: reading it a second time returns the first result and leaves all cells unchanged",
+    'Ru.wsgi_asgi_agree': "if a WSGI environ and an ASGI scope describe the same request (same scheme other than wss, Host header, server name, SERVER_PORT = str(port), root path, path, query, Forwarded / X-Forwarded-* headers) every sequence of reads of the thirteen properties returns the same values on falcon.Request and falcon.asgi.Request",
     'Hp.parseEtags_list': "for a comma-separated list of two or more serialized entity-tags (opaque tags without '\"' or ','... see statement) _parse_etags returns exactly those tags with their weakness flags, in order",
 }
 TRUSTED = [
     "CPython int(): modelled on Latin-1 strings (strip, sign, ASCII digits, single underscores); strings of more than 4300 digits are excluded",
     "re for the entity-tag scanner and _FORWARDED_PAIR_RE (a deterministic pattern: no alternative overlaps), _COOKIE_NAME_RESERVED_CHARS, and CPython 3.12 http.cookies._unquote (its search loop) are replaced by native scanners in the models; their agreement with re/http.cookies is established by the correspondence only",
-    "datetime.strptime/strftime (all HTTP-date forms): not modelled - covered by the independent RFC-level oracle only",
+    "datetime.strptime for the five formats of http_date_to_dt: the regular expression that _strptime.TimeRE builds (CPython 3.12, C locale, time.tzname = ('UTC', 'UTC'), so %Z = gmt|utc) is replaced by a native deterministic scanner and the datetime constructor by its range checks; strftime('%a, %d %b %Y %H:%M:%S GMT') is modelled with glibc's unpadded %Y; their agreement with CPython is established by the correspondence only",
+    "the undoing of the PEP 3333 Latin-1 tunnelling of PATH_INFO (path.encode('iso-8859-1').decode('utf-8', 'replace')) and scope['query_string'].decode() are applied by the harness before the model sees path and query string",
     "str.lower() is modelled on Latin-1 (A-Z and 0xC0-0xDE except 0xD7 move by 32)",
 ]
 ASSUMPTIONS = [
     'header values are Latin-1 strings (what WSGI/ASGI can deliver); suffix-length 0 ("bytes=-0") is outside the comparable domain: the (first, last) API cannot represent it and Falcon answers 400',
     'quoted cookie values: RFC 6265 leaves open whether the DQUOTEs belong to the value; either reading is accepted',
 ]
+RULE_EXTRA = (' HTTP-dates additionally: all five strptime formats with one- or two-digit fields, any letter case, str.isspace separators, out-of-range fields, other zone names, '
+              '1-2 character edits, and dt_to_http output for years 1..9999. URL composition: scheme (http, https, HTTPS, ws, wss, absent), Host header (absent, authority forms, hostile), server name / port '
+              '(default and non-default, absent), root_path, path (empty, trailing slash, non-ASCII) with and without strip_url_path_trailing_slash, query string, Forwarded (absent, grammatical, hostile), '
+              'X-Forwarded-Proto / X-Forwarded-Host; 4-12 property reads in random order with repetitions on one request object, then every property twice')
 RULE = ('values generated from the ABNFs (Range, HTTP-date in three forms, entity-tag lists, cookie-string, Forwarded elements incl. quoted IPv6 and obfuscated node/port, '
         'Host authority forms) and from 1-2 character edits of valid values and of a hostile seed list; header names in random casing; WSGI and ASGI request objects; '
-        'every accessor is read twice; non-trivial = at least one accessor returned a non-None value or a 400')
+        'every accessor is read twice; non-trivial = at least one accessor returned a non-None value or a 400.' + RULE_EXTRA)
 PARTIAL = ('proved cores: Content-Length, Range/range_unit, parse_host (host/port), ETag loads/dumps and _parse_etags, Forwarded (_parse_forwarded_header, unquote_string), '
-           'access_route (all three header sources modelled; the theorem covers the Forwarded source), Cookie (_parse_cookie_header, _unquote, cookies, get_cookie_values). Dates, '
-           'forwarded_scheme/forwarded_host, uri/prefix/relative_uri composition, subdomain and accept checks are decided by the independent RFC-level oracle and the exception-class / repeat-access checks only.')
+           'access_route (all three header sources modelled; the theorem covers the Forwarded source), Cookie (_parse_cookie_header, _unquote, cookies, get_cookie_values), '
+           'HTTP-dates (http_date_to_dt with all five strptime formats, dt_to_http, get_header_as_datetime, date / if_modified_since / if_unmodified_since), and URL composition '
+           '(scheme, netloc, host, root_path, forwarded_scheme, forwarded_host, prefix, forwarded_prefix, uri/url, forwarded_uri, relative_uri, subdomain with the six memo cells, WSGI and ASGI). '
+           'Not proved: a characterisation of ALL strings http_date_to_dt accepts (the theorems cover the rendered forms, the day name, and validity of every returned value; lenient spellings are tied by the '
+           'correspondence and shown by examples); that every Forwarded element has a lower-case scheme for non-grammatical headers; the accept checks (client_accepts*, decided by the independent '
+           'RFC-level oracle only); content_type / user_agent / referer / auth / expect / if_range are plain header reads (oracle: case-insensitive lookup). '
+           'Observation outside the oracle: a date before the year 1000 written by the response API does not read back (Dt.date_below_1000_not_read_back).')
 JOBS = {'quick': 4, 'thorough': 16}
-LEVEL_TEXT = ('Lean 4 theorems on the modelled accessor cores (Content-Length, Range, parse_host/host/port, entity tags, Forwarded elements, access_route, cookies): valid values read as the RFC says '
+LEVEL_TEXT = ('Lean 4 theorems on the modelled accessor cores (Content-Length, Range, parse_host/host/port, entity tags, Forwarded elements, access_route, cookies, HTTP-dates, URL composition): valid values read as the RFC says '
               '(every header built from the RFC 7239 / RFC 6265 grammars is parsed into exactly its elements / name->values mapping, by induction over the element and pair lists), invalid order is a 400, '
-              'every returned range has the documented shape; the models are tied to falcon/request.py, falcon/asgi/request.py, falcon/forwarded.py, falcon/util/uri.py, falcon/util/structures.py and '
+              'every returned range has the documented shape; http_date_to_dt inverts dt_to_http on every four-digit-year date-time and ignores the day name; uri = prefix + path [?query], forwarded_* take Forwarded before X-Forwarded-* before the '
+              "request's own values, the memo cells never change a value in any sequence of reads, and WSGI and ASGI compose the same URL from agreeing inputs; the models are tied to falcon/request.py, falcon/asgi/request.py, falcon/forwarded.py, falcon/util/uri.py, falcon/util/misc.py, falcon/util/structures.py and "
               'falcon/request_helpers.py by a differential correspondence on both request classes. All listed accessors (incl. dates, cookies, Forwarded, URL composition) are additionally '
               'judged by an independent RFC-level oracle: valid input -> RFC value, repeated access stable, only 400-class errors. Partial: see PARTIAL in the evidence.')
 LEVEL_NOTE = 'Trusted: Lean kernel; CPython int()/re/strptime as described; the oracle parsers written from the RFCs.'
@@ -312,8 +362,32 @@ def run(ctx):
 
     sess2 = ctx.session('forwarded / access_route / cookies / get_cookie_values = Fw, Ck models', 'fwdriver')
 
+    sess3 = ctx.session('http_date_to_dt / dt_to_http / date accessors / URL composition = Dt, Ru models', 'rudriver')
+
     def show_opt(v):
         return 'none' if v is None else hs(v)
+
+    def rd_civil(d):
+        return f'ok {d.year} {d.month} {d.day} {d.hour} {d.minute} {d.second}'
+
+    def rd_dateres(r):
+        return 'absent' if r == ('ok', None) else (rd_civil(r[1]) if r[0] == 'ok' else ('invalid' if r[0] == 'http' else 'EXC'))
+
+    CODES = {'sc': 'scheme', 'nl': 'netloc', 'ho': 'host', 'rp': 'root_path', 'sd': 'subdomain', 'fw': 'forwarded', 'fs': 'forwarded_scheme',
+             'fh': 'forwarded_host', 'ru': 'relative_uri', 'pf': 'prefix', 'fp': 'forwarded_prefix', 'ur': 'uri', 'fu': 'forwarded_uri'}
+
+    def rd_val(code, r):
+        if r[0] == 'http': return 'bad'
+        if r[0] != 'ok': return 'EXC'
+        v = r[1]
+        if code == 'fw': return 'none' if v is None else 'els' + ''.join(',' + '|'.join(show_opt(x) for x in e) for e in v)
+        if code == 'sd' and v is None: return 'none'
+        if not isinstance(v, str) or any(ord(ch) > 255 for ch in v): return 'PY ' + repr(v).replace(' ', '_')
+        return hs(v)
+
+    # the URL properties in the order ATTRS reads them (each twice in a row; `url` is `uri`); access_route, which reads req.forwarded, comes after them
+    URL_ORDER = [('ho', 'host'), ('nl', 'netloc'), ('sc', 'scheme'), ('fs', 'forwarded_scheme'), ('fh', 'forwarded_host'), ('sd', 'subdomain'), ('ur', 'uri'), ('ur', 'url'),
+                 ('ru', 'relative_uri'), ('pf', 'prefix'), ('fu', 'forwarded_uri'), ('fp', 'forwarded_prefix'), ('fw', 'forwarded')]
 
     def rd_els(els):  # list of (src, dest, host, scheme)
         return 'els' + ''.join(' ' + '|'.join(show_opt(x) for x in e) for e in els)
@@ -501,6 +575,18 @@ def run(ctx):
             sess.op(f'phost {hs(hov)} {"none" if d is None else d}', e)
         sess2.case({'stack': stack, 'headers': headers})
         fw_ops(req, stack, hv, obs, obs2)
+        # ---- dates and URL composition of the same request object (the memo cells see the reads in ATTRS order)
+        sess3.case({'stack': stack, 'scheme': scheme, 'headers': headers})
+        for a, hname in (('date', 'date'), ('if_modified_since', 'if-modified-since'), ('if_unmodified_since', 'if-unmodified-since')):
+            sess3.op(f'reqdate {show_opt(hv.get(hname))}', rd_dateres(obs[a]))
+        if stack == 'wsgi':
+            uline = (f'wsgi {hs(scheme)} {show_opt(hov)} {hs("srv.example")} {hs(str(sp))} {hs("")} {hs("/p/q")} 0 {hs("x=1")} '
+                     f'{show_opt(hv.get("forwarded"))} {show_opt(hv.get("x-forwarded-proto"))} {show_opt(hv.get("x-forwarded-host"))}')
+        else:
+            uline = (f'asgi {hs(scheme)} 0 {show_opt(hov)} {hs("srv.example")} {sp} {hs("")} {hs("/p/q")} 0 {hs("x=1")} '
+                     f'{show_opt(hv.get("forwarded"))} {show_opt(hv.get("x-forwarded-proto"))} {show_opt(hv.get("x-forwarded-host"))}')
+        sess3.op(uline + ' ' + ','.join(c for c, _a in URL_ORDER for _i in (0, 1)),
+                 ' '.join(rd_val(c, o[a]) for c, a in URL_ORDER for o in (obs, obs2)))
     # ---- Forwarded / access_route / Cookie: the parsing functions directly, and access_route with all header sources and remote addresses
     import http.cookies as hcookies
     from falcon.forwarded import _parse_forwarded_header
@@ -586,5 +672,213 @@ def run(ctx):
         ctx.oracle('response-written date and entity-tag read back unchanged', ok,
                    None if ok else f'wrote last_modified={dt.isoformat()} etag={(val, wk)!r}; headers {hd!r}; read back {back_dt!r} {back_tag!r}', {'date': dt.isoformat(), 'etag': val, 'weak': wk})
         ctx.seen(('etag', v, val, wk), True)
+    # ---- HTTP-dates: http_date_to_dt / dt_to_http directly (all five strptime formats, lenient spellings, mutations), the request
+    #      accessors on both classes, and the two obsolete renderings used by the theorems
+    import warnings
+    from falcon.util import misc as fmisc
+
+    def gen_date_loose():
+        y = rnd.choice([1970, 1994, 2000, 2024, rnd.randint(1, 9999), rnd.randint(1900, 2100)])
+        m = rnd.randint(1, 12); d = rnd.randint(1, 31 if rnd.random() < 0.15 else calendar.monthrange(y, m)[1])
+        H, M, S = rnd.randint(0, 24 if rnd.random() < 0.1 else 23), rnd.randint(0, 60 if rnd.random() < 0.1 else 59), rnd.randint(0, 62 if rnd.random() < 0.1 else 59)
+        wd = rnd.randint(0, 6)
+        p2 = lambda n: rnd.choice([f'{n:02d}', f'{n:02d}', f'{n:02d}', f'{n}'])  # noqa: E731
+        sp = lambda: rnd.choice([' ', ' ', ' ', ' ', '  ', '\t', '\xa0', '\x1c'])  # noqa: E731
+        z = rnd.choice(['GMT', 'GMT', 'GMT', 'gmt', 'UTC', 'utc', 'EST', 'Z', ''])
+        t = f'{p2(H)}:{p2(M)}:{p2(S)}'
+        form = rnd.choice(['imf', 'imf', 'imf', 'imfz', 'dash4', 'rfc850', 'asctime'])
+        if form == 'imf': return f'{DAY[wd]},{sp()}{p2(d)}{sp()}{MON[m-1]}{sp()}{y:04d}{sp()}{t}{sp()}GMT'
+        if form == 'imfz': return f'{DAY[wd]},{sp()}{p2(d)}{sp()}{MON[m-1]}{sp()}{y:04d}{sp()}{t}{sp()}{z}'
+        if form == 'dash4': return f'{DAY[wd]},{sp()}{p2(d)}-{MON[m-1]}-{y:04d}{sp()}{t}{sp()}{z}'
+        if form == 'rfc850': return f'{DAYL[wd]},{sp()}{p2(d)}-{MON[m-1]}-{y % 100:02d}{sp()}{t}{sp()}{z}'
+        return f'{DAY[wd]}{sp()}{MON[m-1]}{sp()}{d:2d}{sp()}{t}{sp()}{y:04d}'
+
+    def mutate_date(v):
+        v = list(v)
+        for _ in range(rnd.randint(1, 2)):
+            k = rnd.random(); i = rnd.randrange(len(v) + 1)
+            if k < 0.3 and v: del v[min(i, len(v) - 1)]
+            elif k < 0.7: v.insert(i, rnd.choice(' ,:-0123456789\t\x00\xe9\xa0\x1c\x1f\x85aGMTSu\xb5\xdf\xcd'))
+            elif v: v[min(i, len(v) - 1)] = rnd.choice(' ,:-09aZ')
+        return ''.join(v)
+
+    for _ in range(ctx.n(1500, 15000)):
+        v = gen_date_loose()
+        k = rnd.random()
+        if k < 0.35: v = mutate_date(v)
+        elif k < 0.45: v = ''.join(rnd.choice([c.lower(), c.upper()]) for c in v)
+        if any(ord(c) > 255 for c in v): continue
+        sess3.case({'date': v})
+        for ob in (0, 1):
+            try:
+                d = fmisc.http_date_to_dt(v, bool(ob)); e = rd_civil(d) if d.tzinfo is dtm.timezone.utc else 'naive'
+            except ValueError:
+                e = 'bad'
+            except Exception as ex:  # noqa
+                e = 'EXC ' + type(ex).__name__
+            sess3.op(f'date {ob} {hs(v)}', e)
+        # the request side: the three properties and get_header_as_datetime on both classes
+        name = rnd.choice(['Date', 'If-Modified-Since', 'If-Unmodified-Since'])
+        present = rnd.random() < 0.9
+        rq = (mk_wsgi if rnd.random() < 0.5 else mk_asgi)([(casing(name), v)] if present else [])
+        r1 = read(rq, name.lower().replace('-', '_'))
+        sess3.op(f'reqdate {hs(v) if present else "none"}', rd_dateres(r1))
+        rqd, ob = rnd.random() < 0.3, rnd.random() < 0.5
+        try:
+            d = rq.get_header_as_datetime(casing(name), required=rqd, obs_date=ob); e = 'absent' if d is None else rd_civil(d)
+        except falcon.HTTPMissingHeader:
+            e = 'missing'
+        except falcon.HTTPInvalidHeader:
+            e = 'invalid'
+        except Exception as ex:  # noqa
+            e = 'EXC ' + type(ex).__name__
+        sess3.op(f'getdt {1 if rqd else 0} {1 if ob else 0} {hs(v) if present else "none"}', e)
+        # rendering: strftime on every year a datetime can hold (glibc does not pad %Y), and the two obsolete renderings
+        y = rnd.choice([rnd.randint(1, 9999), rnd.randint(1, 999), rnd.randint(1000, 9999)]); m = rnd.randint(1, 12)
+        dd = rnd.randint(1, calendar.monthrange(y, m)[1]); H, M, S = rnd.randint(0, 23), rnd.randint(0, 59), rnd.randint(0, 59)
+        dt0 = dtm.datetime(y, m, dd, H, M, S, tzinfo=dtm.timezone.utc)
+        txt = fmisc.dt_to_http(dt0)
+        sess3.op(f'fmt {y} {m} {dd} {H} {M} {S}', hs(txt))
+        try:
+            back = rd_civil(fmisc.http_date_to_dt(txt))
+        except ValueError:
+            back = 'bad'
+        sess3.op(f'date 0 {hs(txt)}', back)
+        ok = back == rd_civil(dt0) or y < 1000
+        ctx.oracle('http-date: http_date_to_dt(dt_to_http(d)) == d for every four-digit year', ok, None if ok else f'{dt0.isoformat()} rendered {txt!r} read back {back}', {'datetime': dt0.isoformat()})
+        if y < 1000 and back == 'bad': ctx.count('date_year_below_1000_not_read_back')
+        wd = dt0.weekday()
+        sess3.op(f'rfc850 {y} {m} {dd} {H} {M} {S}', hs(f'{DAYL[wd]}, {dd:02d}-{MON[m-1]}-{y % 100:02d} {H:02d}:{M:02d}:{S:02d} GMT'))
+        sess3.op(f'asctime {y} {m} {dd} {H} {M} {S}', hs(f'{DAY[wd]} {MON[m-1]} {dd:2d} {H:02d}:{M:02d}:{S:02d} {y}'))
+        ctx.seen(('date', v, y, m, dd, H, M, S), True)
+
+    if ctx.shard[0] == 0:
+        ctx.notes.append("observation (not counted as an oracle failure; reported to the coordinator): for years 1..999 dt_to_http writes the year unpadded (glibc %Y) and "
+                         "http_date_to_dt answers ValueError for that text, so a response date before the year 1000 does not read back - theorem Dt.date_below_1000_not_read_back; "
+                         "see input_distribution['date_year_below_1000_not_read_back']")
+    # ---- URL composition: scheme / netloc / host / root_path / forwarded_* / prefix / uri / relative_uri / subdomain through the memo cells
+    def latin1(s):
+        return all(ord(c) < 256 for c in s)
+
+    for _ in range(ctx.n(1500, 15000)):
+        stack = rnd.choice(['wsgi', 'asgi'])
+        scheme = rnd.choice(['http', 'http', 'https', 'https', 'HTTPS', 'ws', 'wss'] + ([None] if stack == 'asgi' else []))
+        websocket = stack == 'asgi' and rnd.random() < 0.2
+        k = rnd.random(); hexp = None
+        if k < 0.4: hostv = None
+        elif k < 0.8: hostv, hexp, _p = gen_host()
+        elif k < 0.9: hostv = rnd.choice(['example.com:80', 'example.com:443', 'a.b.example:8080', 'sub.example.com'])
+        else: hostv = rnd.choice(HOSTILE['Host'])
+        sname = rnd.choice(['srv.example', 'localhost', '10.0.0.1', '::1', 'a.b.c'])
+        sport = rnd.choice([80, 443, 80, 443, 8000, 8443, 0, 65535])
+        sport_txt = str(sport) if rnd.random() < 0.9 else rnd.choice(['0080', '+80', ' 443', '443 '])
+        no_server = stack == 'asgi' and rnd.random() < 0.1
+        root = rnd.choice([None, '', '', '/app', '/a/b', 'noslash', '/r\xe9'])
+        path = rnd.choice(['/', '', '/p/q', '/p/q/', '//', '/x/', '/caf\xe9', '/a?b'])
+        strip = rnd.random() < 0.4
+        query = rnd.choice(['', '', 'x=1', 'a=b&c=d', '?', 'q=caf\xe9', None if stack == 'wsgi' else ''])
+        k = rnd.random(); fexp = None
+        if k < 0.4: fwd = None
+        elif k < 0.7: fwd, fexp = gen_forwarded()
+        elif k < 0.85: fwd = rnd.choice(['', 'proto=HTTPS;host=fh.example', 'for=1.2.3.4', 'host=""', 'proto=""', 'proto=""; host=x', 'host=a.b;proto=wss, proto=http', ',proto=https', 'by=x'])
+        else: fwd = mutate(rnd.choice(HOSTILE['Forwarded'] + ['proto=https;host=fh.example']))
+        xfp = rnd.choice([None, None, 'https', 'HTTPS', 'Http', '', '\xc9x'])
+        xfh = rnd.choice([None, None, 'fh.example', 'a:b', '', 'x.y:8080'])
+        if not all(latin1(x) for x in (fwd or '', hostv or '')): continue
+        opts = falcon.RequestOptions(); opts.strip_url_path_trailing_slash = strip
+        hdrs = [(n, v) for n, v in (('Host', hostv), ('Forwarded', fwd), ('X-Forwarded-Proto', xfp), ('X-Forwarded-Host', xfh)) if v is not None]
+        if stack == 'wsgi':
+            env = ft.create_environ(path='/', scheme='http', host='h', port=1)
+            env.pop('HTTP_HOST', None)
+            env['wsgi.url_scheme'] = scheme; env['SERVER_NAME'] = sname; env['SERVER_PORT'] = sport_txt
+            env['PATH_INFO'] = path.encode('utf-8').decode('latin-1')   # PEP 3333 tunnelling
+            if root is None: env.pop('SCRIPT_NAME', None)
+            else: env['SCRIPT_NAME'] = root
+            if query is None: env.pop('QUERY_STRING', None)
+            else: env['QUERY_STRING'] = query
+            for n, v in hdrs: env['HTTP_' + n.upper().replace('-', '_')] = v
+            req = falcon.Request(env, options=opts)
+            line = (f'wsgi {hs(scheme)} {show_opt(hostv)} {hs(sname)} {hs(sport_txt)} {show_opt(root)} {hs(path)} {1 if strip else 0} {show_opt(query)} '
+                    f'{show_opt(fwd)} {show_opt(xfp)} {show_opt(xfh)}')
+            fwline = f'wsgifw {hs(scheme)} {show_opt(hostv)} {hs(sname)} {hs(sport_txt)} {show_opt(fwd)} {show_opt(xfp)} {show_opt(xfh)} 1'
+        else:
+            scope = ft.create_scope(path='/', scheme='http', host='h', port=1)
+            if websocket: scope['type'] = 'websocket'
+            if scheme is None: scope.pop('scheme', None)
+            else: scope['scheme'] = scheme
+            if no_server: scope.pop('server', None) if rnd.random() < 0.5 else scope.__setitem__('server', None)
+            else: scope['server'] = rnd.choice([(sname, sport), [sname, sport]])
+            scope['path'] = path
+            if root is None: scope.pop('root_path', None)
+            else: scope['root_path'] = root
+            scope['query_string'] = (query or '').encode('utf-8')
+            scope['headers'] = [(n.lower().encode('latin-1'), v.encode('latin-1')) for n, v in hdrs]
+
+            async def receive():
+                return {'type': 'http.request'}
+            req = falcon.asgi.Request(scope, receive, options=opts)
+            srv = 'none 0' if no_server else f'{hs(sname)} {sport}'
+            line = (f'asgi {show_opt(scheme)} {1 if websocket else 0} {show_opt(hostv)} {srv} {show_opt(root)} {hs(path)} {1 if strip else 0} {hs(query or "")} '
+                    f'{show_opt(fwd)} {show_opt(xfp)} {show_opt(xfh)}')
+            fwline = f'asgifw {show_opt(scheme)} {1 if websocket else 0} {show_opt(hostv)} {srv} {show_opt(fwd)} {show_opt(xfp)} {show_opt(xfh)} 1'
+        order = [rnd.choice(list(CODES)) for _ in range(rnd.randint(4, 12))]
+        got = [read(req, CODES[c]) for c in order]
+        sess3.case({'stack': stack, 'line': line, 'order': order})
+        sess3.op(line + ' ' + ','.join(order), ' '.join(rd_val(c, r) for c, r in zip(order, got)))
+        # every property once more, in a fixed order, for the oracle (memo cells are now partly filled)
+        o = {c: read(req, CODES[c]) for c in CODES}
+        o2 = {c: read(req, CODES[c]) for c in CODES}
+        sess3.op(fwline, (hs(o['fs'][1]) if o['fs'][0] == 'ok' else 'bad') + ' ' + (hs(o['fh'][1]) if o['fh'][0] == 'ok' else 'bad'))
+        bad = None
+        for c in CODES:
+            if o[c][0] == 'EXC' or (o[c][0] == 'http' and not 400 <= o[c][1] < 500): bad = bad or f'req.{CODES[c]}: {o[c]!r}'
+            if repr(o[c]) != repr(o2[c]): bad = bad or f'req.{CODES[c]} not stable: {o[c]!r} then {o2[c]!r}'
+        for c, r in zip(order, got):
+            if repr(r) != repr(o[c]): bad = bad or f'req.{CODES[c]} changed between accesses: {r!r} then {o[c]!r}'
+        if bad is None:
+            sch = scheme if scheme is not None else ('ws' if websocket else 'http')
+            dport = 443 if sch in (('https', 'wss') if stack == 'asgi' else ('https',)) else 80
+            if hostv is not None: want_netloc = hostv
+            elif no_server: want_netloc = 'localhost'
+            elif stack == 'wsgi': want_netloc = sname if sport_txt == str(dport) else sname + ':' + sport_txt
+            else: want_netloc = sname if sport == dport else f'{sname}:{sport}'
+            p = path or '/'
+            if strip and len(p) != 1 and p.endswith('/'): p = p[:-1]
+            rootv = root or ''
+            rel = rootv + p + ('?' + query if query else '')
+            want = {'sc': sch, 'rp': rootv, 'ru': rel}
+            if sch == sch.lower() and (stack == 'asgi' or hostv is not None or sport_txt == str(sport)):   # canonical server data only
+                want.update({'nl': want_netloc, 'pf': sch + '://' + want_netloc + rootv, 'ur': sch + '://' + want_netloc + rel})
+            else:
+                want_netloc = o['nl'][1]
+            if o['nl'][0] == 'ok':
+                if o['pf'] != ('ok', sch + '://' + o['nl'][1] + rootv): bad = bad or f'prefix {o["pf"]!r} is not scheme://netloc + root_path'
+                if o['ur'] != ('ok', sch + '://' + o['nl'][1] + rel): bad = bad or f'uri {o["ur"]!r} is not scheme://netloc + relative_uri'
+            if fwd is None:
+                want['fs'] = xfp.lower() if xfp is not None else sch
+                want['fh'] = xfh if xfh is not None else want_netloc
+            elif fexp is not None:
+                want['fs'] = fexp[0]['scheme'] or sch
+                want['fh'] = fexp[0]['host'] or want_netloc
+            if hexp is not None and ':' not in hexp and not hexp[0].isdigit():
+                want['sd'] = hexp.split('.')[0] if '.' in hexp else None
+            elif hostv is None and not no_server and ':' not in sname and not sname[0].isdigit():
+                want['sd'] = sname.split('.')[0] if '.' in sname else None
+            for c, w in want.items():
+                if o[c] != ('ok', w): bad = bad or f'req.{CODES[c]} is {o[c]!r}, expected {w!r}'
+            if o['fs'][0] == 'ok' and o['fh'][0] == 'ok':
+                if o['fp'] != ('ok', o['fs'][1] + '://' + o['fh'][1] + rootv): bad = bad or f'forwarded_prefix {o["fp"]!r} is not forwarded_scheme://forwarded_host + root_path'
+                if o['fu'] != ('ok', o['fs'][1] + '://' + o['fh'][1] + rel): bad = bad or f'forwarded_uri {o["fu"]!r} is not forwarded_scheme://forwarded_host + relative_uri'
+            with warnings.catch_warnings():
+                warnings.simplefilter('ignore')
+                ap = read(req, 'app'); ul = read(req, 'url')
+            if ap != o['rp']: bad = bad or f'req.app {ap!r} differs from root_path {o["rp"]!r}'
+            if ul != o['ur']: bad = bad or f'req.url {ul!r} differs from uri {o["ur"]!r}'
+        ctx.oracle('url composition: scheme://netloc + root_path + path [?query]; forwarded_* from Forwarded, else X-Forwarded-*, else own; default port omitted only without Host header; subdomain; stable; only 400s',
+                   bad is None, bad, {'stack': stack, 'scheme': scheme, 'websocket': websocket, 'host': hostv, 'server': None if no_server else (sname, sport_txt if stack == 'wsgi' else sport),
+                                      'root_path': root, 'path': path, 'strip': strip, 'query': query, 'forwarded': fwd, 'x-forwarded-proto': xfp, 'x-forwarded-host': xfh})
+        ctx.seen(('url', line, tuple(order)), True)
+        ctx.count('url_' + stack)
     sess.finish()
     sess2.finish()
+    sess3.finish()
